@@ -159,3 +159,13 @@ claim('C09',
       'excluded; lists <= 3; two defects repaired by fix: commits.',
       'symbolic execution of the real writer and parser with decimal tokens + SMT (z3 LRA/LIRA)',
       'DESIGN.md section 5 C09')
+claim('C11',
+      'Bounded symbolic check of the CRTF serialiser and parser with decimal tokens: for the CRTF-representable pixel classes '
+      'in coordsys=image every coordinate and size is symbolic and the parsed value is proved within half a unit of the '
+      'format precision (semi-axes for ellipses), same class, include sense, annotation type, label, CRTF metadata, '
+      'determinism and parse-serialise-parse fixed point; sky regions in six frames and three length units with concrete '
+      'coordinates (frame-independent separation); CASA reading rules on literal files.',
+      'Two open known findings (points without a symbol; pixel polygons/lines written with deg suffix), two defects repaired; '
+      'the line grammar is exercised by literal files, not a symbolic grammar.',
+      'symbolic execution of the real writer and parser with decimal tokens + SMT (z3 LRA)',
+      'DESIGN.md section 5 C11')
